@@ -9,7 +9,7 @@ RULE = ("sessions = a table of screen programs (stack operations, signals, raise
         "non-trivial per property: see harness/screen_check.py nontrivial()")
 
 MANIFEST = dict(
-    text='Proof: the acceptor chk_C18 (a refusal only while a request is outstanding, naming all outstanding requests oldest first and then the refused one; a reader thread is started iff none runs, otherwise only the prompt is re-printed; on arrival of the line exactly one ready signal per outstanding request — success with the line for the most recent, failure for every earlier one — after which the request stack is empty and no reader runs; a blocking wait returns only after its own ready signal) holds for every session of the model (C18_input_requests); C18_answered_at_most_once, C18_no_second_ready, C18_refused_names_everyone, C18_reader_started_iff_idle, C18_ready_was_announced, C18_wait_returns_after_answer, C18_handoff_def.',
+    text='Proof: the acceptor chk_C18 (a refusal only while a request is outstanding, naming all outstanding requests oldest first and then the refused one; a reader thread is started iff none runs, otherwise only the prompt is re-printed; on arrival of the line exactly one ready signal per outstanding request — success with the line for the most recent, failure for every earlier one — after which the request stack is empty and no reader runs; a blocking wait returns only after its own ready signal; a wait on an InputHandler object reports the flags and value of the last ready signal delivered to it) holds for every session of the model (C18_input_requests), including sessions with type-ahead (the line arrives before the requesting callback continues) and InputHandler objects used for several requests; C18_ready_consumes_its_entry (per request: every ready signal consumes exactly one matching hand-off entry), C18_wait_reports_last_answer, C18_no_second_ready, C18_refused_names_everyone, C18_reader_started_iff_idle, C18_ready_was_announced, C18_wait_returns_after_answer, C18_handoff_def; C18_answered_at_most_once (per handler, for sessions that use every handler object once — all the framework itself does).',
     note="Trusted: Coq kernel, extraction, harness (screen_worker.py records events through subclasses / name patching and releases typed lines when the loop is idle). " + 'thread join and console echo mode are runtime; arrival timing is canonical (see C06).',
     technique="Coq theorem: a trace acceptor holds for every application session of an interpreter model of the screen layer over the MainLoop model; the same extracted acceptor judges traces of the real implementation; differential correspondence model<->/repo")
 
